@@ -436,4 +436,321 @@ class C12(Prop):
         return case
 
 
-REGISTRY = {"C01": C01, "C18": C18, "C12": C12}
+# ---------------------------------------------------------------------------------------------
+# expectations computed from the reference decoder (gen/dnsgen.py decode_ref)
+
+SECN = ["an", "ns", "ar"]
+ALLR = "n.r.t.c.l.d.D.i.s.o"
+
+
+def name_text(labels):
+    out = []
+    for l in labels:
+        out.append(bytes(l).replace(b".", b"\\046"))
+    return b".".join(out).lower()
+
+
+def exp_record_obs(r, secname):
+    wn = G.wire_name(r.name)
+    o = ["|", "n=" + hx(name_text(r.name)), "r=%s/%d" % (hx(wn), len(wn)), "t=%d" % r.rtype, "c=%d" % r.rclass, "l=%d" % r.ttl,
+         "d=%d" % r.rdlen]
+    if r.rtype in (G.T_A, G.T_AAAA):
+        o += ["D=ip:" + hx(r.rdata), "i=" + hx(r.rdata)]
+    else:
+        o += ["D=" + hx(r.rdata), "i=ERR:PropertyNotFound"]
+    o += ["s=" + secname, "o=%d/%d" % (r.off, r.name_end)]
+    return o
+
+
+def exp_walk(m, sec, incl):
+    """Expected observation of W,<sec>,<incl>,*ALLR on a decoded message."""
+    if sec == "q":
+        wn = G.wire_name(m.qname)
+        return "W[" + " ".join(["|", "n=" + hx(name_text(m.qname)), "r=%s/%d" % (hx(wn), len(wn)), "t=%d" % m.qtype, "c=%d" % m.qclass,
+                                "s=q", "o=%d/%d" % (m.q_off, m.q_name_end)]) + "]"
+    if sec == "ed":
+        if m.opt is None:
+            return "W[]"
+        return "W[" + " ".join("|e=%d/%s" % (c, hx(d)) for (c, d, _) in m.opt.opts) + "]"
+    si = SECN.index(sec)
+    out = []
+    for r in m.sections[si]:
+        if r.rtype == G.T_OPT and not incl:
+            continue
+        out += exp_record_obs(r, sec)
+    return "W[" + " ".join(out) + "]"
+
+
+def exp_view(m, mc=1):
+    def on(x):
+        return "-" if x is None else str(x)
+    if m.opt is None:
+        ed = ("-", 0, "-", "-", "-", 512)
+    else:
+        ttl = m.opt.ttl
+        ed = (m.opt.rd_off, len(m.opt.opts), ttl >> 24, (ttl >> 16) & 255, ttl & 0xFFFF, m.opt.rclass)
+    return "q=12 an=%s ns=%s ar=%s ed=%s ec=%d rc=%s ver=%s xf=%s mc=%d mp=%d" % (
+        on(m.sec_off[0]), on(m.sec_off[1]), on(m.sec_off[2]), ed[0], ed[1], ed[2], ed[3], ed[4], mc, ed[5])
+
+
+def exp_g(m):
+    w = m.flags
+    xf = 0 if m.opt is None else (m.opt.ttl & 0xFFFF)
+    fl = (xf << 16) | (w & 0x87F0)
+    qr = (w >> 15) & 1
+    sec = ((w >> 5) & 1) if qr else ((xf >> 15) & 1)
+    mp = 512 if m.opt is None else m.opt.rclass
+    return "g[tid=%d fl=%d rc=%d op=%d qr=%d sec=%d mp=%d]" % (m.tid, fl, w & 15, (w >> 11) & 15, qr, sec, mp)
+
+
+def decode_or_none(b):
+    try:
+        return G.decode_ref(b)
+    except (G.Reject, IndexError):
+        return None
+
+
+def valid_packets(rng, n, **kw):
+    """Accepted packets with their reference decoding: all layouts, OPT first/middle/last/absent."""
+    out = []
+    while len(out) < n:
+        b, bounds, _ = G.rand_valid_packet(rng, **kw)
+        m = decode_or_none(b)
+        if m is not None:
+            out.append((b, m))
+    return out
+
+
+def special_valid(rng):
+    """Hand-built accepted packets: OPT in every position, pointer chains, pointers into rdata names and
+    into the header, root and maximal names."""
+    out = []
+    A = lambda n, k=1: G.RR(n, 1, 1, 60 + k, ("raw", bytes([10, 0, 0, k])))
+    q = [b"example", b"com"]
+    for pos in range(4):
+        for nopt in (0, 1, 3):
+            ar = [A([b"a%d" % i] + q, i) for i in range(3)]
+            opts = [(10 + i, bytes(range(i))) for i in range(nopt)]
+            ar.insert(pos, G.RR([], 41, 1232, 0x01008000, ("opt", opts)))
+            for layout in ("none", "greedy", "chain"):
+                b, _ = G.encode(rng, G.Msg(7, 0x8180, q, 1, 1, an=[A(q)], ns=[], ar=ar), layout)
+                out.append(b)
+    b, _ = G.encode(rng, G.Msg(7, 0x0120, q, 1, 1, ar=[G.RR([], 41, 4096, 0x8000, ("opt", []))]), "none")
+    out.append(b)  # query with DO
+    for h in (1, 8, 15, 16):
+        out.append(G.chain_packet(h, tail_records=2))
+    out.append(G.header_pointer_packet())
+    mx = G.RR(q, 15, 1, 5, ("mx", 10, [b"mail"] + q))
+    soa = G.RR(q, 6, 1, 5, ("soa", [b"ns"] + q, [b"host", b"master"] + q, bytes(range(20))))
+    ns_ = G.RR(q, 2, 1, 5, ("name", [b"ns"] + q))
+    cn = G.RR([b"www"] + q, 5, 1, 5, ("name", [b"mail"] + q))  # points into the MX rdata name under greedy
+    for layout in ("none", "greedy", "chain", "random"):
+        b, _ = G.encode(rng, G.Msg(9, 0x8580, q, 255, 1, an=[mx, cn, soa], ns=[ns_], ar=[A([b"ns"] + q)]), layout)
+        out.append(b)
+    big = G.name_of_wire_len(255)
+    b, _ = G.encode(rng, G.Msg(9, 0x8180, big, 1, 1, an=[A(big), G.RR([], 2, 1, 0, ("name", []))]), "greedy")
+    out.append(b)
+    b, _ = G.encode(rng, G.Msg(9, 0x8180, [], 1, 1, an=[A([])]), "none")
+    out.append(b)  # root everywhere
+    return [(x, decode_or_none(x)) for x in out if decode_or_none(x) is not None]
+
+
+class C03(Prop):
+    id = "C03"
+    rule = ("accepted packets (random messages under none/greedy/random/chain pointer layouts; hand-built: OPT first/middle/last/absent with "
+            "0-3 options, 1/8/15/16-hop chains, pointers into rdata names and into the header, root and 255-byte names): walk the question, "
+            "answer, authority, additional (OPT skipped and included) sections and the EDNS options calling every accessor on every record; "
+            "then dump the bytes. Compared with the model and with expectations computed by an independent reference decoder. "
+            "Non-trivial: packet has at least one record besides the question; distinct = distinct packet.")
+    strength = ("proved (unbounded): on every packet the parser accepts, skip_name agrees with the validator on every name "
+                "(skip_name_agrees), each accepted record is skipped to exactly the offset the parser reached, and a full "
+                "walk of a section (OPT included) visits exactly the announced number of records without a Panic outcome "
+                "(walk_section_total). The accessor values (names, TTLs, data) are tied to RFC 1035 decoding by the correspondence and "
+                "the reference-decoder oracle, not yet by a theorem: C03_full_statement keeps the full claim visible.")
+    assumptions = ["bytes < 256"]
+
+    def gen(self, rng, tier):
+        n = 500 if tier == "quick" else 12000
+        pk = special_valid(rng) + valid_packets(rng, n)
+        cases = []
+        for i, (b, m) in enumerate(pk):
+            ops = ["P," + hx(b), "W,q,0,*n.r.t.c.s.o", "W,an,0,*" + ALLR, "W,ns,0,*" + ALLR, "W,ar,0,*" + ALLR, "W,ar,1,*" + ALLR,
+                   "W,an,1,*" + ALLR, "W,ed", "b"]
+            rng.shuffle(ops[1:8])
+            head, mid = ops[:1], ops[1:8]
+            rng.shuffle(mid)
+            cases.append(Case("w%d" % i, "\t".join(head + mid + ["b"]), {"family": "walk", "pkt": b.hex()}))
+        return cases
+
+    def oracle(self, case, io):
+        w = no_crash(io)
+        if w:
+            return w
+        b = bytes.fromhex(case.meta["pkt"])
+        m = decode_or_none(b)
+        if m is None:
+            return None
+        ops = case.line.split("\t")
+        if not io[0].startswith("OK"):
+            return None  # C02's business
+        for op, o in zip(ops[1:], io[1:]):
+            f = op.split(",")
+            if f[0] == "W":
+                exp = exp_walk(m, f[1], len(f) > 2 and f[2] == "1")
+                if o != exp:
+                    return "walk %s of an accepted packet: got %s, the bytes decode to %s" % (",".join(f[:3]), o[:300], exp[:300])
+            elif f[0] == "b":
+                if o != "b=" + hx(b):
+                    return "reading altered the packet bytes"
+        return None
+
+    def classify(self, case, why):
+        return "readers"
+
+    def nontrivial(self, case, io):
+        m = decode_or_none(bytes.fromhex(case.meta["pkt"]))
+        return hash(case.meta["pkt"]) if m is not None and sum(len(s) for s in m.sections) > 0 else None
+
+    def tags(self, case, io):
+        m = decode_or_none(bytes.fromhex(case.meta["pkt"]))
+        if m is None:
+            return ["rejected"]
+        t = ["records=%d" % min(9, sum(len(s) for s in m.sections))]
+        if m.opt is not None:
+            idx = m.sections[2].index(m.opt)
+            t.append("opt=" + ("only" if len(m.sections[2]) == 1 else "first" if idx == 0 else "last" if idx == len(m.sections[2]) - 1 else "middle"))
+        else:
+            t.append("opt=absent")
+        return t
+
+
+class C04(Prop):
+    id = "C04"
+    rule = ("accepted packets as for C03 plus, for a fixed packet with and without OPT, all 65536 flag words (quick: 4096 of them); every "
+            "getter (tid, flags, rcode, opcode, is_response, dnssec, max_payload, question_raw0/raw/text, qtype_qclass, the EDNS summary "
+            "fields) in several orders so the cache is exercised filled and empty. Expected values are decoded independently from the bytes. "
+            "Non-trivial: all; distinct = distinct (packet, getter order).")
+    strength = ("proved: flags() = (ext_flags << 16) | (word & 0x87f0) and the DNSSEC indicator as bit identities for every word and OPT value "
+                "(C04_flags_word, C04_dnssec_bits); the parser stores the OPT fixed fields it read (C04_opt_fields_from_bytes). Question "
+                "extraction equal to RFC 1035 decoding rests on the correspondence and the reference-decoder oracle.")
+    assumptions = ["bytes < 256"]
+
+    def one(self, rng, i, b, fam):
+        getters = ["g", "q0", "q1", "q2", "qt", "v", "ca"]
+        order = []
+        for _ in range(rng.randint(5, 9)):
+            order.append(rng.choice(getters))
+        order += ["q2", "qt", "q0", "q2", "qt", "q1", "g", "v"]
+        return Case("g%d" % i, "\t".join(["P," + hx(b)] + order), {"family": fam, "pkt": b.hex()})
+
+    def gen(self, rng, tier):
+        cases = []
+        pk = special_valid(rng) + valid_packets(rng, 400 if tier == "quick" else 8000)
+        for i, (b, m) in enumerate(pk):
+            cases.append(self.one(rng, i, b, "packets"))
+        step = 16 if tier == "quick" else 1
+        q = [b"Example", b"COM"]
+        k = len(cases)
+        for w in range(0, 65536, step):
+            for opt in (False, True):
+                flags = w
+                an = [G.RR(q, 1, 1, 1, ("raw", b"\1\2\3\4"))] if (w & 0x8000) else []
+                ar = [G.RR([], 41, rng.choice([512, 1232, 65535, 0]), rng.getrandbits(32), ("opt", [(1, b"x")] * rng.randint(0, 2)))] if opt else []
+                b, _ = G.encode(rng, G.Msg(rng.getrandbits(16), flags, q, 28, 1, an=an, ar=ar), "greedy")
+                cases.append(Case("f%d" % k, "\t".join(["P," + hx(b), "g", "v", "q0", "q2"]), {"family": "flagwords", "pkt": b.hex()}))
+                k += 1
+        return cases
+
+    def oracle(self, case, io):
+        w = no_crash(io)
+        if w:
+            return w
+        b = bytes.fromhex(case.meta["pkt"])
+        m = decode_or_none(b)
+        if m is None or not io[0].startswith("OK"):
+            return None
+        wn = G.wire_name(m.qname)
+        exp = {"g": exp_g(m), "q0": "q0=%s/%d/%d" % (hx(wn), m.qtype, m.qclass), "q1": "q1=%s/%d/%d" % (hx(wn[:-1]), m.qtype, m.qclass),
+               "q2": "q2=%s/%d/%d" % (hx(name_text(m.qname)), m.qtype, m.qclass), "qt": "qt=%d/%d" % (m.qtype, m.qclass),
+               "v": "v[" + exp_view(m) + "]"}
+        for op, o in zip(case.line.split("\t")[1:], io[1:]):
+            if op in exp and o != exp[op]:
+                return "getter %s: got %s, the bytes say %s" % (op, o[:200], exp[op][:200])
+        return None
+
+    def classify(self, case, why):
+        return "summary"
+
+    def tags(self, case, io):
+        return ["opt" if b"\x00\x00\x29" in bytes.fromhex(case.meta["pkt"]) else "noopt"]
+
+
+class C05(Prop):
+    id = "C05"
+    rule = ("accepted packets as for C03; for each, Compress::uncompress_with_previous_offset at EVERY record boundary (start of every record "
+            "and end of packet), plus uncompress of the canonical output again (stability). Expected output = the canonical pointer-free "
+            "encoding computed by the independent reference decoder/encoder, expected offset = the same boundary in that encoding. "
+            "Non-trivial: packet contains at least one compression pointer; distinct = distinct (packet, boundary).")
+    strength = ("proved: uncompress never reaches a Panic site of the model on a packet the parser accepts as far as the section walks are "
+                "concerned (via C03's walk theorems) and its output begins with the input's 12-byte header (C05_header_kept); "
+                "C05_full_statement (output = encode_plain of the decoded message, offset translation) is validated by the correspondence and "
+                "by exact comparison with the independent canonical encoder on every boundary of every generated packet.")
+    assumptions = ["bytes < 256", "the reference offset is a record boundary (documented precondition of uncompress_with_previous_offset)"]
+
+    def gen(self, rng, tier):
+        n = 300 if tier == "quick" else 6000
+        pk = special_valid(rng) + valid_packets(rng, n)
+        cases = []
+        k = 0
+        for (b, m) in pk:
+            plain, bounds = G.encode_plain(m)
+            offs = sorted(bounds)
+            if tier == "quick" and len(offs) > 6:
+                offs = sorted(set([offs[0], offs[-1]] + rng.sample(offs, 4)))
+            for off in offs:
+                cases.append(Case("u%d" % k, "U,%s,%d" % (hx(b), off), {"family": "boundary", "pkt": b.hex(), "off": off}))
+                k += 1
+            cases.append(Case("u%d" % k, "U,%s,%d" % (hx(plain), 12), {"family": "stable", "pkt": plain.hex(), "off": 12}))
+            k += 1
+        return cases
+
+    def oracle(self, case, io):
+        w = no_crash(io)
+        if w:
+            return w
+        b = bytes.fromhex(case.meta["pkt"])
+        m = decode_or_none(b)
+        if m is None:
+            return None
+        plain, bounds = G.encode_plain(m)
+        exp = "OK:%s@%d" % (hx(plain), bounds[case.meta["off"]])
+        if io[0] != exp:
+            got = io[0]
+            if got.startswith("OK:"):
+                gb, go = got[3:].split("@")
+                if gb != hx(plain):
+                    m2 = decode_or_none(bytes.fromhex(gb)) if gb != "-" else None
+                    if m2 is None:
+                        return "decompression of an accepted packet produced a packet that is not well-formed"
+                    if G.message_key(m2) != G.message_key(m):
+                        return "decompression changed the message (records, names, types, classes, TTLs or data differ)"
+                    return "decompression output is not the canonical pointer-free encoding of the message"
+                return "record boundary %d of the input must map to %d in the output, got %s" % (case.meta["off"], bounds[case.meta["off"]], go)
+            return "decompression of an accepted packet failed: " + got
+        return None
+
+    def classify(self, case, why):
+        return "uncompress"
+
+    def nontrivial(self, case, io):
+        b = bytes.fromhex(case.meta["pkt"])
+        m = decode_or_none(b)
+        if m is None:
+            return None
+        return hash(case.line) if G.encode_plain(m)[0] != b else None
+
+    def tags(self, case, io):
+        return [case.meta["family"]]
+
+
+REGISTRY = {"C01": C01, "C18": C18, "C12": C12, "C03": C03, "C04": C04, "C05": C05}
